@@ -215,6 +215,19 @@ namespace vf
 
    using eager_in = memory_input< tracking_mode::eager, eol::lf_crlf, const char* >;
    using lazy_in = memory_input< tracking_mode::lazy, eol::lf_crlf, const char* >;
+   // an input that grants no more look-ahead than a rule asks for: size( amount ) == min( amount, remaining ), the least a buffered input
+   // (buffer_input::size = require( amount ), then the buffered byte count) guarantees; everything else as eager_in
+   struct stingy_in
+      : eager_in
+   {
+      using eager_in::eager_in;
+      [[nodiscard]] std::size_t size( const std::size_t amount ) const noexcept
+      {
+         const std::size_t r = eager_in::size( amount );
+         return ( amount < r ) ? amount : r;
+      }
+      [[nodiscard]] bool empty() const noexcept { return size( 1 ) == 0; }
+   };
 
    // out[0] result: 0 local failure, 1 success, 2 verif_exc, 3 foreign_exc
    // out[1] byte after; out[2] exception id; out[3] exception byte; out[4] line after; out[5] column after
